@@ -10,6 +10,7 @@ ASSUMPTIONS = [
     "comparators: exact (data movement, element-wise pass-through), 3u (rescaling, dtype moves), one output step (softmax, where, copy_ of plain into quantized), (K+4)u*K*max|a|max|b| (contractions)",
 ]
 expand_task = texp.expand_task
+ladder_task = texp.ladder_task
 
 
 def main(ctx):
